@@ -26,13 +26,28 @@ def oracle_e2e(ctx: Ctx, case):
     buf = state2.callback_state.data["rollout_buffer"]
     R = np.asarray(buf.rewards).reshape(E, T)
     V = np.asarray(buf.values).reshape(E, T)
-    D = np.asarray(buf.dones).reshape(E, T)
+    D = np.array(buf.dones).reshape(E, T)
     A = np.asarray(buf.advantages).reshape(E, T)
     G = np.asarray(buf.returns).reshape(E, T)
     ctx.check(np.asarray(buf.rewards).shape == ((T,) if E == 1 else (E, T)), "C03/e2e/buffer-shape", shape=list(np.asarray(buf.rewards).shape))
     inner = False
+    acts = np.asarray(buf.actions).reshape((E, T) + np.asarray(buf.actions).shape[(1 if E == 1 else 2) :])
     for e in range(E):
         ss1 = state2.step_state if E == 1 else jax.tree.map(lambda x: x[e], state2.step_state)
+        # episode ends as the *environment* produced them (terminal or truncated), replayed with the interpreter from the
+        # state the rollout started in - not the buffer's own done column, which is what is under test together with GAE
+        ss0 = state.step_state if E == 1 else jax.tree.map(lambda x: x[e], state.step_state)
+        s0, c0, _ = mdp.read_state(spec, ss0.env_state)
+        obs_e = buf.observations if E == 1 else jax.tree.map(lambda x: x[e], buf.observations)
+        ends = []
+        for t in range(T):
+            s0_, c0_, _, term, trunc = interp.step(s0, c0, interp.clip(acts[e][t]))
+            ends.append(bool(term or trunc))
+            if ends[-1] and t + 1 < T:
+                s0, c0 = interp.decode_obs(onpolicy.row(obs_e, t + 1))[0], 0
+            else:
+                s0, c0 = s0_, c0_
+        D[e] = np.asarray(ends)
         s, c, acc = mdp.read_state(spec, ss1.env_state)
         obs = interp.obs(s, acc)
         if spec["obs_kind"] == "dict":
